@@ -27,6 +27,7 @@ import (
 	"github.com/ipfs/go-datastore/query"
 	dssync "github.com/ipfs/go-datastore/sync"
 	"github.com/ipld/go-ipld-prime"
+	"github.com/ipld/go-ipld-prime/codec/dagjson"
 	_ "github.com/ipld/go-ipld-prime/codec/raw" // raw-codec blocks decode as bytes nodes
 	"github.com/ipld/go-ipld-prime/datamodel"
 	"github.com/ipld/go-ipld-prime/fluent"
@@ -243,6 +244,30 @@ func (w *World) AddNode(direct []cid.Cid, nested []cid.Cid) cid.Cid {
 		}
 	})
 	return w.store(n)
+}
+
+// AddPadded stores a dag-json map block {"id": .., "pad": "xxx.."} whose encoded form is
+// exactly size bytes long.
+func (w *World) AddPadded(size int) cid.Cid {
+	id := fmt.Sprintf("%s-padded-%d", w.Tag, len(w.Blocks)+1)
+	mk := func(pad int) ipld.Node {
+		return fluent.MustBuildMap(basicnode.Prototype.Map, 2, func(ma fluent.MapAssembler) {
+			ma.AssembleEntry("id").AssignString(id)
+			ma.AssembleEntry("pad").AssignString(strings.Repeat("x", pad))
+		})
+	}
+	var buf bytes.Buffer
+	if err := dagjson.Encode(mk(0), &buf); err != nil {
+		panic(err)
+	}
+	if buf.Len() > size {
+		panic("syncdrv: padded block smaller than its frame")
+	}
+	c := w.store(mk(size - buf.Len()))
+	if got := len(w.byCid[c].Raw); got != size {
+		panic(fmt.Sprintf("syncdrv: padded block is %d bytes, wanted %d", got, size))
+	}
+	return c
 }
 
 // AddRaw stores data as a raw-codec block (CID: codec raw, the world's hash function).  The
@@ -483,7 +508,8 @@ type HookCall struct {
 	Cid  cid.Cid
 }
 
-// Hook kinds: "nominate" = the hook the API prescribes for segmented syncs (nominates the
+// Hook kinds: "general" = the library's own dagsync.MakeGeneralBlockHook (advertisement
+// chains only); "nominate" = the hook the API prescribes for segmented syncs (nominates the
 // block's own PreviousID / Next link, cid.Undef when it has none); "silent" = a hook that
 // only records; "none" = no block hook at all.
 type Sub struct {
@@ -514,17 +540,36 @@ func (sub *Sub) MakeHook(kind string) dagsync.BlockHookFunc {
 	if kind == "none" {
 		return nil
 	}
+	var general dagsync.BlockHookFunc
+	if kind == "general" {
+		// the hook the library itself provides: dagsync.MakeGeneralBlockHook with a
+		// prevAdCid callback that loads the advertisement from the local store
+		general = dagsync.MakeGeneralBlockHook(func(adCid cid.Cid) (cid.Cid, error) {
+			n, err := sub.Lsys.Load(ipld.LinkContext{}, cidlink.Link{Cid: adCid}, schema.AdvertisementPrototype)
+			if err != nil {
+				return cid.Undef, err
+			}
+			ad, err := schema.UnwrapAdvertisement(n)
+			if err != nil {
+				return cid.Undef, err
+			}
+			return ad.PreviousCid(), nil
+		})
+	}
 	return func(p peer.ID, c cid.Cid, a dagsync.SegmentSyncActions) {
 		sub.mu.Lock()
 		sub.hooks = append(sub.hooks, HookCall{p, c})
 		sub.mu.Unlock()
-		if kind == "nominate" {
+		switch kind {
+		case "nominate":
 			next, err := chainLink(sub.Lsys, c)
 			if err != nil {
 				a.FailSync(err)
 				return
 			}
 			a.SetNextSyncCid(next)
+		case "general":
+			general(p, c, a)
 		}
 	}
 }
@@ -544,6 +589,23 @@ func NewSub(hookKind string, opts ...dagsync.Option) *Sub {
 	sub.S = s
 	sub.events, _ = s.OnSyncFinished()
 	return sub
+}
+
+// SyncWithSelector drives ipnisync's Syncer.Sync directly (the entry point that takes a
+// caller-built selector) over the subscriber's link system; the Sync's own block hook
+// records into sub.
+func (sub *Sub) SyncWithSelector(ctx context.Context, srv *Server, root cid.Cid, sel ipld.Node) error {
+	sy := ipnisync.NewSync(sub.Lsys, func(p peer.ID, c cid.Cid) {
+		sub.mu.Lock()
+		sub.hooks = append(sub.hooks, HookCall{p, c})
+		sub.mu.Unlock()
+	})
+	defer sy.Close()
+	syncer, err := sy.NewSyncer(srv.AddrInfo())
+	if err != nil {
+		return err
+	}
+	return syncer.Sync(ctx, root, sel)
 }
 
 // Prestore copies blocks of the world into the subscriber's datastore.
